@@ -1,7 +1,67 @@
-//! Further operations
-use serde_json::Value;
+//! Parsing and text (C05, C04, C16)
+use std::str::FromStr;
+
+use bigdecimal::{BigDecimal, Num, ParseBigDecimalError};
+use serde_json::{json, Value};
+
+use crate::wire::*;
+
+pub fn err_kind(e: &ParseBigDecimalError) -> &'static str {
+    match e {
+        ParseBigDecimalError::ParseDecimal(_) => "ParseDecimal",
+        ParseBigDecimalError::ParseInt(_) => "ParseInt",
+        ParseBigDecimalError::ParseBigInt(_) => "ParseBigInt",
+        ParseBigDecimalError::Empty => "Empty",
+        ParseBigDecimalError::Other(_) => "Other",
+    }
+}
+
+fn res(r: Result<BigDecimal, ParseBigDecimalError>) -> Value {
+    match r {
+        Ok(x) => json!({"d": dec_to_json(&x)}),
+        Err(e) => {
+            // the error value must be usable: Display must not panic
+            let _ = format!("{}", e);
+            json!({"err": err_kind(&e)})
+        }
+    }
+}
+
+/// the four entry points (and other radixes) on a string / byte slice
+pub fn parse_api(api: &str, text: Option<&str>, bytes: &[u8], radix: u32) -> Value {
+    match api {
+        "from_str" => res(BigDecimal::from_str(text.expect("text"))),
+        "parse" => res(text.expect("text").parse::<BigDecimal>()),
+        "from_str_radix10" => res(BigDecimal::from_str_radix(text.expect("text"), 10)),
+        "from_str_radix" => res(BigDecimal::from_str_radix(text.expect("text"), radix)),
+        "parse_bytes" => match BigDecimal::parse_bytes(bytes, 10) {
+            Some(x) => json!({"d": dec_to_json(&x)}),
+            None => json!({"err": "None"}),
+        },
+        "parse_bytes_radix" => match BigDecimal::parse_bytes(bytes, radix) {
+            Some(x) => json!({"d": dec_to_json(&x)}),
+            None => json!({"err": "None"}),
+        },
+        _ => panic!("HARNESS: unknown parse api {}", api),
+    }
+}
 
 pub fn exec_more(ev: &Value) -> Value {
     let op = ev["op"].as_str().expect("op");
-    panic!("HARNESS: unknown op {}", op)
+    let form = ev.get("form").and_then(|f| f.as_str()).unwrap_or("");
+    match op {
+        "parse" => {
+            let api = ev["api"].as_str().expect("api");
+            let radix = ev.get("radix").and_then(|r| r.as_u64()).unwrap_or(10) as u32;
+            if let Some(b) = ev.get("bytes") {
+                let bytes = json_to_bytes(b);
+                let text = std::str::from_utf8(&bytes).ok().map(|s| s.to_string());
+                parse_api(api, text.as_deref(), &bytes, radix)
+            } else {
+                let text = json_to_text(&ev["text"]);
+                parse_api(api, Some(&text), text.as_bytes(), radix)
+            }
+        }
+        _ => crate::exec5::exec_more(ev),
+    }
 }
